@@ -661,6 +661,25 @@ def replay_pipeline_behaviours(v: Verdict, cfg_file: str, shape, num: int, sd: i
                     sr = np.array(unm["rf"]).reshape(shape)
                     same = (_canon_partition(cp, (cp != 0) | (cr != 0)) == _canon_partition(sp, (sp != 0) | (sr != 0))
                             and _canon_partition(cr, (cp != 0) | (cr != 0)) == _canon_partition(sr, (sp != 0) | (sr != 0)))
+                    # phase 2: the matched pair - the pairs (reference instance, prediction voxels carrying its label)
+                    lm_state = next((s["lm"] for _, s in beh if s["pc"] == "loopdone"), None)
+                    if same and lm_state is not None:
+                        try:
+                            mp = np.asarray(steps.prediction_arr(InputType.MATCHED_INSTANCE))
+                            mr = np.asarray(steps.reference_arr(InputType.MATCHED_INSTANCE))
+                            uni = (mp != 0) | (mr != 0)
+                            code_pairs = set()
+                            for lab in set(np.unique(mp)) & set(np.unique(mr)) - {0}:
+                                code_pairs.add((_canon_partition(np.where(mr == lab, 1, 0), uni), _canon_partition(np.where(mp == lab, 1, 0), uni)))
+                            suni = (sp != 0) | (sr != 0)
+                            spec_pairs = set()
+                            for rlab in {e[0] for e in lm_state}:
+                                preds = [e[1] for e in lm_state if e[0] == rlab]
+                                spec_pairs.add((_canon_partition(np.where(sr == rlab, 1, 0), suni), _canon_partition(np.where(np.isin(sp, preds), 1, 0), suni)))
+                            if code_pairs == spec_pairs:
+                                v.cov["spec_behaviours_matched_phase_equal"] = v.cov.get("spec_behaviours_matched_phase_equal", 0) + 1
+                        except Exception:  # noqa: BLE001   (early exit: no matched step recorded)
+                            pass
                     if not same:
                         v.violation("S2C_UnmatchedPhase", site_eval(rec, "S2C_UnmatchedPhase"), {"spec": "Trace_Eval", "invariants": EVAL_C01, "record": rec,
                                                                                                 "spec_unm": {"pr": list(unm["pr"]), "rf": list(unm["rf"])}},
